@@ -53,9 +53,23 @@ pub fn enc_signal(o: &Object, out: &mut Vec<i64>) {
 pub fn exec(c: &[i64]) -> Vec<i64> {
     let expanded: Vec<i64>;
     let c = if c[0] == -21 { expanded = vec![39, 0, 2, 1, 255, 5, 5, 3, 1, 4, c[1], 0, 0, 0, 5, 2]; &expanded[..] } else { c };
-    let r = std::panic::catch_unwind(|| run(c));
-    r.unwrap_or_else(|_| vec![-1])
+    // Scripts with the short (150 ms) receive timeout depend on the wall clock: if the machine stalls the harness for tens of
+    // milliseconds inside a step that should take none (overload), the unit times out although the script says it has not
+    // been silent. Such a run says nothing about the code: it is repeated (up to four times) before its observation is used.
+    let has_short = { let n = c.get(8).copied().unwrap_or(0).max(0) as usize; (0..n).any(|k| c.get(9 + 5 * k + 4) == Some(&3)) };
+    let mut last = vec![-1];
+    for _attempt in 0..4 {
+        OVERRUN.with(|o| o.set(false));
+        let r = std::panic::catch_unwind(|| run(c));
+        last = r.unwrap_or_else(|_| vec![-1]);
+        if !(has_short && OVERRUN.with(|o| o.get())) { break; }
+    }
+    last
 }
+
+thread_local! { static OVERRUN: std::cell::Cell<bool> = std::cell::Cell::new(false); }
+/// a step that waits for nothing took longer than this: the harness was stalled
+const STEP_SLACK: std::time::Duration = std::time::Duration::from_millis(40);
 
 #[path = "/repo/glonax-server/src/config.rs"]
 #[allow(dead_code)]
@@ -93,12 +107,14 @@ fn run(c: &[i64]) -> Vec<i64> {
     let mut n = 0i64;
     while i < c.len() {
         let ev = c[i];
+        let t_ev = std::time::Instant::now();
+        let mut intended = std::time::Duration::ZERO;
         rt.block_on(async {
             match ev {
                 1 => {
                     let data: Vec<u8> = c[i + 3..i + 11].iter().map(|b| *b as u8).collect();
                     bus.inject(&raw_frame(c[i + 1] as u32, c[i + 2] as u8, &data));
-                    let _ = tokio::time::timeout(std::time::Duration::from_millis(300), auth.recv(signal_tx.clone())).await;
+                    if tokio::time::timeout(std::time::Duration::from_millis(300), auth.recv(signal_tx.clone())).await.is_err() { intended = std::time::Duration::from_millis(300); }
                     i += 11;
                 }
                 2 => { auth_tick.on_tick(signal_tx.clone()).await; i += 1; }
@@ -127,15 +143,17 @@ fn run(c: &[i64]) -> Vec<i64> {
                     let h = std::thread::spawn(move || { std::thread::sleep(std::time::Duration::from_millis(60)); flag.store(false, std::sync::atomic::Ordering::SeqCst); });
                     auth_cmd.on_command(&Object::Motion(m)).await;
                     let _ = h.join();
+                    intended = std::time::Duration::from_millis(60);
                     i += 1 + used;
                 }
                 7 => { auth_cmd.on_command(&other_object(c[i + 1])).await; i += 2; }
-                4 => { tokio::time::sleep(std::time::Duration::from_millis(c[i + 1] as u64)).await; i += 2; }
+                4 => { intended = std::time::Duration::from_millis(c[i + 1] as u64); tokio::time::sleep(intended).await; i += 2; }
                 5 => { auth.setup().await; i += 1; }
                 6 => { auth.teardown().await; i += 1; }
                 _ => { i = c.len(); }
             }
         });
+        if t_ev.elapsed() > intended + STEP_SLACK { OVERRUN.with(|o| o.set(true)); }
         n += 1;
         let frames: Vec<j1939::Frame> = bus.pump().iter().map(|raw| {
             let id = u32::from_le_bytes([raw[0], raw[1], raw[2], raw[3]]) & 0x1fffffff;
